@@ -64,6 +64,8 @@ type Violation struct {
 
 // Run accumulates everything one check invocation observes.
 type Run struct {
+	caseBudget func(float64) // set by WorkerLoop
+
 	Prop   string
 	Tier   string
 	Seed   int64
